@@ -92,10 +92,10 @@ Print Assumptions C13_progress.
    statuses followed by "yours" -- what the server writes, C13_told_truth --
    it returns exactly at the first "yours", having consumed nothing behind it,
    for every fragmentation of the stream. *)
-Theorem C13_client_acquire : forall yours bs y s rest fuel,
+Theorem C13_client_acquire : forall yours bs y s rest (fuel : nat),
   Forall (fun c : list Z => c <> []) s ->
   Forall (fun m => (Z.of_nat (length m) < 4294967296)%Z) (bs ++ [y]) ->
-  Forall (fun m => yours m = false) bs -> yours y = true -> length bs < fuel ->
+  Forall (fun m => yours m = false) bs -> yours y = true -> (length bs < fuel)%nat ->
   concat s = concat (map send (bs ++ [y])) ++ rest ->
   exists s', acquire_wait fuel yours s = Some (bs ++ [y], s') /\ concat s' = rest.
 Proof.
